@@ -263,7 +263,11 @@ def run_case(case, ctx):
             if route == 'numpy':
                 conv.convert_numpy(D, out, r_arg, bs_arg, ilines=src['ilines'], xlines=src['xlines'], samples=src['samples'], prerun=prerun)
             elif route == 'segyio':
-                conv.convert_segy(src['path'], out, r_arg, bs_arg, reduce_iops=False, prerun=prerun,
+                # (sources with dead trailing lines are also converted without trace headers: nothing follows the data section then)
+                det_ = 'strip' if case['src'].get('valkind') in ('deadends', 'deadborder', 'zeros') else 'heuristic'
+                if det_ == 'strip':
+                    strata.add('dead-tail-without-footer')
+                conv.convert_segy(src['path'], out, r_arg, bs_arg, reduce_iops=False, prerun=prerun, detection=det_,
                                   mem_limit=None if case['qcap'] is None else 2 * case['qcap'] * bs[0] * D.shape[1] * D.shape[2] * 4)
             elif route == 'iops':
                 conv.convert_segy(src['path'], out, r_arg, bs_arg, reduce_iops=True, prerun=prerun)
